@@ -25,11 +25,11 @@ type c06Case struct {
 	PadLen  int     `json:"padlen"`
 	PadPat  int     `json:"padpat"`
 	IVPat   int     `json:"ivpat"`
-	Warm    int     `json:"warm"`               // lib2ref: the sending key object has carried a long (1) / an empty (2) message before
-	Env     []int   `json:"env,omitempty"`      // random-source answers during protection (explorer choices)
-	SKFlags int     `json:"sk_flags,omitempty"` // ref2lib: the peer sets this octet as critical flag / reserved bits of the SK generic header (a receiver ignores it; the checksum covers it)
+	Warm    int     `json:"warm"`                  // lib2ref: the sending key object has carried a long (1) / an empty (2) message before
+	Env     []int   `json:"env,omitempty"`         // random-source answers during protection (explorer choices)
+	SKFlags int     `json:"sk_flags,omitempty"`    // ref2lib: the peer sets this octet as critical flag / reserved bits of the SK generic header (a receiver ignores it; the checksum covers it)
 	KeyBuf  bool    `json:"key_scratch,omitempty"` // lib2ref: the sender's security objects were made from one scratch buffer that the caller refilled per key and wiped afterwards
-	Again   int     `json:"again,omitempty"`    // lib2ref: (4: a second message object built over the same payload slice is protected after the first; its datagram is the one examined) the same message object is protected a second time after 1: the Message ID changed, 2: under another SA (rekey), 3: by the other role; the second datagram is the one examined
+	Again   int     `json:"again,omitempty"`       // lib2ref: (4: a second message object built over the same payload slice is protected after the first; its datagram is the one examined) the same message object is protected a second time after 1: the Message ID changed, 2: under another SA (rekey), 3: by the other role; the second datagram is the one examined
 }
 
 func init() {
@@ -37,7 +37,7 @@ func init() {
 		ID:    "C06",
 		Level: "model_checking",
 		Rule: "(a) every library-protected message of the universe (sequences up to the depth bound) × 9 suites × both directions × key patterns is verified, decrypted and parsed by the independent RFC 7296 §3.14 receiver (own CBC over the AES block, own HMAC): cleartext header, single SK, SK.next, IV‖CBC(inner‖pad‖padlen) under the sender's SK_e, ICV = trunc(HMAC(SK_a, everything before it)), final lengths; " +
-			"a second protection of one message object (other Message ID / SA / role), a second message object built over the same payload slice, and sender key objects made from one scratch buffer that the caller refilled per key and wiped are judged the same way; "+
+			"a second protection of one message object (other Message ID / SA / role), a second message object built over the same payload slice, and sender key objects made from one scratch buffer that the caller refilled per key and wiped are judged the same way; " +
 			"(b) reference-protected messages with every legal pad length 0..255 (16 per message) × pad octet patterns {0x00,0xFF,counting,=padlen} × IV patterns are given to DecodeDecrypt. distinct_nontrivial = distinct protected datagrams with >= 1 inner payload accepted by the other side",
 		Assumptions: []string{"trusted primitives shared by both sides: AES block function, MD5/SHA-1/SHA-256 compression"},
 		Run:         runC06,
@@ -94,6 +94,9 @@ func runC06(c *engine.Ctx) {
 						}
 						if len(m.P) >= 1 && len(m.P) <= 2 {
 							evalC06(c, c06Case{K: "lib2ref", Name: name, M: m, Suite: si, Pattern: pat, SenderI: sI, Again: 4})
+						}
+						if len(m.P) <= 1 {
+							evalC06(c, c06Case{K: "lib2ref", Name: name, M: m, Suite: si, Pattern: pat, SenderI: sI, Warm: 4})
 						}
 						if len(m.P) <= 1 {
 							evalC06(c, c06Case{K: "lib2ref", Name: name, M: m, Suite: si, Pattern: pat, SenderI: sI, KeyBuf: true})
